@@ -39,6 +39,10 @@ type TxGen struct {
 	rng *rand.Rand
 	// pending nonces inside the block being generated
 	pending map[staking.Address]uint64
+	// current holds the generated transactions of the block being executed.
+	current []*GenTx
+	// Extra, if set, may add transactions to a block (check-specific attacks).
+	Extra func(g *TxGen, height int64, base []*GenTx) []*GenTx
 	// past holds previously submitted raw transactions (for replays).
 	past []*GenTx
 	// weights by maker name
@@ -86,6 +90,12 @@ func NewTxGen(h *History) *TxGen {
 }
 
 func (g *TxGen) view() *View { return g.h.View }
+
+// Rng exposes the generator's PRNG to check-specific extensions.
+func (g *TxGen) Rng() *rand.Rand { return g.rng }
+
+// History returns the history the generator belongs to.
+func (g *TxGen) History() *History { return g.h }
 
 func (g *TxGen) nonce(a *Account) uint64 {
 	if n, ok := g.pending[a.Addr]; ok {
@@ -738,6 +748,10 @@ func (g *TxGen) Next(height int64) []*GenTx {
 		i, j := g.rng.IntN(len(out)), g.rng.IntN(len(out))
 		out[i], out[j] = out[j], out[i]
 	}
+	if g.Extra != nil {
+		out = append(out, g.Extra(g, height, out)...)
+	}
+	g.current = out
 	return out
 }
 
